@@ -10,9 +10,9 @@ import (
 
 func verifBound() int {
 	if verifrt.Tier() > 0 {
-		return 9
+		return 5
 	}
-	return 6
+	return 3
 }
 
 func verifEncode(data []byte, split, width int) []byte {
@@ -31,10 +31,10 @@ func Verif_C06_asciihex_roundtrip() {
 	n := verifrt.Len("n", 0, verifBound())
 	data := verifrt.Bytes("data", n)
 	split := verifrt.Len("split", 0, n)
-	width := []int{2, 7, 79}[verifrt.Choice("width", 3)]
+	width := []int{2, 7, 79}[verifrt.Choice("width", 2+verifrt.Tier())]
 	enc := verifEncode(data, split, width)
-	bufsz := verifrt.Len("bufsz", 1, 4)
-	chunk := verifrt.Len("chunk", 0, 3)
+	bufsz := verifrt.Len("bufsz", 1, 2+2*verifrt.Tier())
+	chunk := verifrt.Len("chunk", 0, 1+2*verifrt.Tier())
 	r := Decode(&verifrt.ChunkReader{Data: enc, Chunk: chunk, EOF: io.EOF})
 	out, err, exhausted := verifrt.ReadAll(r, bufsz, 4*n+16)
 	verifrt.Cover("decoded")
@@ -88,7 +88,7 @@ func refHexDecode(src []byte) (out []byte, ok bool) {
 // reference-style encodings (upper case, white space, odd digit) vs library
 // decoder.
 func Verif_C07_asciihex_vs_reference() {
-	n := verifrt.Len("n", 0, verifBound())
+	n := verifrt.Len("n", 0, verifBound()-1)
 	data := verifrt.Bytes("data", n)
 	enc := verifEncode(data, n, 79)
 	out, ok := refHexDecode(enc)
@@ -119,13 +119,13 @@ func Verif_C07_asciihex_vs_reference() {
 // Verif_C08_asciihex_total: arbitrary body; result agrees with the reference
 // on where the data ends.
 func Verif_C08_asciihex_total() {
-	max := 5
+	max := 3
 	if verifrt.Tier() > 0 {
-		max = 7
+		max = 5
 	}
 	n := verifrt.Len("n", 0, max)
 	body := verifrt.Bytes("body", n)
-	bufsz := verifrt.Len("bufsz", 1, 3)
+	bufsz := verifrt.Len("bufsz", 1, 2)
 	r := Decode(&verifrt.ChunkReader{Data: body, EOF: io.EOF})
 	out, err, exhausted := verifrt.ReadAll(r, bufsz, 2*n+8)
 	verifrt.Cover("drained")
